@@ -10,3 +10,5 @@ open LhasaV.Props.C08
 #print axioms LhasaV.Props.C08.list_headers_no_fault
 #print axioms LhasaV.Props.C08.history_no_fault
 #print axioms LhasaV.Props.C08.visited_state_ok
+#print axioms LhasaV.Props.C08.test_run_no_fault
+#print axioms LhasaV.Props.C08.fault_flag_never_set
